@@ -17,6 +17,7 @@ import (
 var alphabet = []byte{
 	'{', '}', '[', ']', '(', ')', '"', '$', '%', '~', '<', '-', '=', '#', '/', '*', '.', ',', ':', '?', '!',
 	'a', '1', '\\', ' ', '\n', '\r', 0x00, 0x80, 0xc3, 0xff,
+	'e', // exponent marker: 1e, 1e-, 1.e- ...
 }
 
 // damage alphabet of domain (b): what a token is replaced by / what is
@@ -31,6 +32,7 @@ var damage = []string{
 	// escape sequences (meaningful where the edit lands inside a quoted string): surrogate halves,
 	// beyond the last code point, too few digits, unknown escape
 	`\ud800`, `\U0000DFFF`, `\U00110000`, `\u12`, `\q`, `\t`,
+	"e-", "E+", "0x", // identifier-like fragments that look like the tail of a number
 }
 
 const doubleEditMaxTokens = 12
@@ -45,7 +47,7 @@ type entry struct {
 // n null, s set, v string, e empty list; functions upper, length, join, min,
 // concat, ns::upper.
 var exprAtoms = []string{
-	`a`, `1`, `"s"`, `true`, `null`, `1.5e3`,
+	`a`, `1`, `"s"`, `true`, `null`, `1.5e3`, `0 .e-5`,
 	`o.a`, `o.l[0].n`, `l[0]`, `m["k"]`, `t[b]`, `l.0`, `o.f.g`,
 	`o.l.*.n`, `o.l[*].n`, `l[*]`, `o.l[*].n[0]`,
 	`b + 1 * 2`, `-b`, `!c`, `b == 2 && c || !c`, `(b)`, `b % 2 >= 1`, `b / 0`, `b != 1`,
